@@ -148,7 +148,7 @@ def polyhedron_problems(r, e):
             if not (X.dot(nn, cp) - float(d)) < -1e-9 * math.sqrt(X.n2(nn)):
                 out.append(('center-not-strictly-inside', list(cp)))
                 break
-        if len(r.pyramid_set) != len(facets):
+        if hasattr(r, 'pyramid_set') and len(r.pyramid_set) != len(facets):
             out.append(('wrong-pyramid-count', len(r.pyramid_set)))
     except Exception as ex:
         out.append(('malformed:' + type(ex).__name__, str(ex)[:100]))
